@@ -234,6 +234,44 @@ def run(index, rep, tier):
         direct = [n for n in walk_no_nested(f.node) if isinstance(n, ast.Return) and "leaf" in norm(n.value)]
         rep.check((ok and len(incs) == 1) or bool(direct), "R15.4", f.qualname, "counts leaves", fn_where(f), "len(tree) counts seed_node.leaf_iter()", "Tree.__len__ no longer counts the leaves of the tree")
 
+    # ---- R15.6
+    with rep.section("R15.6"):
+        rep.rule("R15.6", "age order: Node.ageorder_iter sorts every node of the subtree with the node's age as the PRIMARY key, and reverses exactly when `descending` is set")
+        af = index.function(NODE + ".ageorder_iter")
+        sorts = [c for c in calls_in(af.node) if (call_name(c) == "sort" and isinstance(c.func, ast.Attribute)) or (call_name(c) == "sorted" and isinstance(c.func, ast.Name))]
+        if len(sorts) != 1:
+            raise AnalysisError("R15.6: ageorder_iter: expected exactly one sort, found %d" % len(sorts))
+        sc = sorts[0]
+        key = get_kwarg(sc, "key")
+        if key is None or not isinstance(key, (ast.Lambda, ast.Call)):
+            raise AnalysisError("R15.6: ageorder_iter: the sort has no recognisable key (decorate-sort or named key function); shape not recognised")
+        prim = None
+        if isinstance(key, ast.Lambda) and len(key.args.args) == 1:
+            b = key.body
+            prim = b.elts[0] if isinstance(b, ast.Tuple) and b.elts else b
+            okk = isinstance(prim, ast.Attribute) and prim.attr == "age" and isinstance(prim.value, ast.Name) and prim.value.id == key.args.args[0].arg
+        elif isinstance(key, ast.Call) and norm(key.func).endswith("attrgetter") and key.args:
+            okk = const_value(key.args[0]) == "age"
+        else:
+            okk = False
+        rep.check(okk, "R15.6", af.qualname, "primary sort key is not the age: %s" % (norm(key)[:60] if key is not None else "no key"), fn_where(af, sc), "ageorder_iter sorts by the node's age first",
+                  "Node.ageorder_iter sorts with key `%s`, whose primary component is not the node's age: whenever a tip is older than some internal node (tip-dated trees, ages set through set_node_age_fn) the nodes are not yielded in monotone age order" % (norm(key)[:80] if key is not None else None))
+        rv = get_kwarg(sc, "reverse")
+        okr = False
+        if rv is not None and norm(rv) == "descending":
+            okr = True
+        elif isinstance(rv, ast.Name):
+            pm = parent_map(af.node)
+            defs = [n for n in walk_no_nested(af.node) if isinstance(n, ast.Assign) and norm(n.targets[0]) == rv.id]
+            pol = set()
+            for d in defs:
+                iff = pm.get(d)
+                if isinstance(iff, ast.If) and norm(iff.test) == "descending":
+                    pol.add((d in iff.body, const_value(d.value, None)))
+            okr = pol == {(True, True), (False, False)} and len(defs) == 2
+        rep.check(okr, "R15.6", af.qualname, "reverse flag is not `descending`", fn_where(af, sc), "the sort is reversed exactly when descending is requested",
+                  "Node.ageorder_iter does not reverse its sort exactly when `descending` is truthy (reverse=%s)" % (norm(rv) if rv is not None else None))
+
     # ---- R15.5
     with rep.section("R15.5"):
         f = index.function(NODE + ".apply")
